@@ -79,6 +79,15 @@ func ckksBinKinds() []Kind {
 			}
 			return v
 		})),
+		// scale 2^70: beyond the 53 bits of a float64 mantissa, so the result tells a default-precision encoder
+		// from an arbitrary-precision one (environment ckks-prec)
+		mk("ct1/scale=2^70-[]float64", "[]float64", 1, 0, float64(1<<30), func(e *Env, g *Gen) interface{} {
+			v := make([]float64, slots(e))
+			for i := range v {
+				v[i] = float64(g.U64()%1000003)/1000003 - 0.5
+			}
+			return v
+		}),
 		mk("ct2-[]float64", "[]float64", 2, -1, 3, func(e *Env, g *Gen) interface{} {
 			v := make([]float64, slots(e)-3)
 			for i := range v {
